@@ -35,23 +35,23 @@ theorem decode_complete (cfg : Cfg) (env : Names) (hl : cfg.lim < 2^63) (h1 : 1 
 /-- **every base-128 digit string is read**, not only the shortest one the crate writes: up to ten bytes, value below
 2^64, with or without trailing zero digits (`SpecEnc` itself relates a number to its shortest form only) -/
 theorem varint_any_digits (ds : List Nat) (last : Nat) (hd : ∀ d ∈ ds, d < 128) (hlast : last < 128)
-    (hlen : ds.length + 1 ≤ 10) (hv : digitsVal (ds ++ [last]) < 2^64) (rest : Bytes) :
-    decodeVar (digitBytes ds last ++ rest) = .ok (digitsVal (ds ++ [last]), rest) :=
+    (hlen : ds.length + 1 ≤ 10) (hv : varintVal (ds ++ [last]) < 2^64) (rest : Bytes) :
+    decodeVar (varintBytes ds last ++ rest) = .ok (varintVal (ds ++ [last]), rest) :=
   decodeVar_digits ds last hd hlast hlen hv rest
 
 /-- **a zero-padded long is read to the same number**: what the crate writes for `n` is a digit string, and the same
 digits followed by `k + 1` zero digits (another writer's non-canonical form) are read back as `n` -/
 theorem padded_long_read (n : Int) (hn : i64ok n) (k : Nat) (rest : Bytes) :
-    ∃ ds last, encLong n = digitBytes ds last ∧
+    ∃ ds last, encLong n = varintBytes ds last ∧
       (ds.length + 1 + (k + 1) ≤ 10 →
-        decLong (digitBytes (ds ++ last :: List.replicate k 0) 0 ++ rest) = .ok (n, rest)) := by
+        decLong (varintBytes (ds ++ last :: List.replicate k 0) 0 ++ rest) = .ok (n, rest)) := by
   obtain ⟨ds, last, he, hv, hds, hl, _⟩ := encodeVarAux_digits 10 (zig n) (by omega) (Nat.lt_of_lt_of_le (zig_lt n) (by decide))
   refine ⟨ds, last, he, ?_⟩
   intro hlen
-  have hval : digitsVal ((ds ++ last :: List.replicate k 0) ++ [0]) = zig n := by
+  have hval : varintVal ((ds ++ last :: List.replicate k 0) ++ [0]) = zig n := by
     have e : (ds ++ last :: List.replicate k 0) ++ [0] = (ds ++ [last]) ++ List.replicate (k + 1) 0 := by
       simp [List.replicate_succ']
-    rw [e, digitsVal_pad, hv]
+    rw [e, varintVal_pad, hv]
   have hall : ∀ d ∈ ds ++ last :: List.replicate k 0, d < 128 := by
     intro d hd
     rcases List.mem_append.mp hd with h | h
